@@ -450,7 +450,7 @@ def all_specs(ctx, rng):
                 for n1 in (False, True):
                     specs.append(SymMat(dim=d, rc=rc, t0=t0, n1=n1))
             specs.append(SoExp(dim=d, rc=rc))
-            for r in (sorted({1, d}) if ctx.quick() else range(1, d + 1)):
+            for r in (sorted({1, d // 2 + 1, d}) if ctx.quick() else range(1, d + 1)):      # rank = d makes the column selection the identity: keep an interior rank
                 specs += [StSO(dim=d, rank=r, rc=rc, meth='exp'), StSO(dim=d, rank=r, rc=rc, meth='cayley')]
             for order in (1, 2, 3):
                 specs.append(SoCayley(dim=d, rc=rc, order=order))
@@ -763,7 +763,9 @@ def probe_constraints(ctx, rng):
         if shp:
             flat = x.reshape(-1, n)
             per = guarded(lambda: np.stack([to_np(spec.call(flat[s])) for s in range(rows.shape[0])]))
-            tolb = (1e-5 if f32 else 1e-12)
+            # matrix-exponential / linear-solve charts: a library that batches expm / inv internally (torch.linalg.matrix_exp on a stack) differs
+            # from per-sample calls by ~1e-10; the elementwise maps stay at 1e-12
+            tolb = (1e-5 if f32 else (TOL64 if isinstance(spec, SoExp) else 1e-12))
             if rec['degenerate'] and isinstance(spec, StQR):
                 tolb = float('inf') if isinstance(per, str) is False else tolb      # non-unique Q: only existence of the per-sample result is required
             if isinstance(per, str) or (np.isfinite(tolb) and rel_err(per.reshape(ys.shape), ys) > tolb):
@@ -1075,6 +1077,7 @@ def sogen_tie(ctx, rng):
     import torch, scipy.linalg
     ops, expect = [], []
     cap = []
+    skipped = [0]
     o_np, o_t = scipy.linalg.expm, torch.linalg.matrix_exp
     def w_np(a, *k, **kw):
         cap.append(np.array(a)); return o_np(a, *k, **kw)
@@ -1089,13 +1092,27 @@ def sogen_tie(ctx, rng):
                     th = rng.normal(size=(2, n)) * float(10 ** rng.uniform(-1, 1))
                     del cap[:]
                     y = guarded(lambda: M().to_special_orthogonal_exp(to_backend(th, backend, False), d))
-                    mats = [c for c in cap]
+                    # however the library calls the routine (once per sample, once on the stack, …): all captured arguments, in call order
+                    try:
+                        mats = np.concatenate([np.asarray(c).reshape(-1, d, d) for c in cap]) if cap else np.zeros((0, d, d))
+                    except ValueError:
+                        mats = np.zeros((0, d, d))
+                    if not isinstance(y, str) and mats.shape[0] != 2:
+                        # the generator did not pass through the wrapped routine in a recognisable form (other entry point, own Padé code, …):
+                        # not a property of the map — the tie is not applicable for this call
+                        skipped[0] += 1
+                        continue
                     for s_ in range(2):
                         ops.append(f'C01 sogen {d} {rc} {tbits(th[s_])}')
-                        expect.append((backend, y if isinstance(y, str) else (mats[s_] if len(mats) == 2 else 'error:captured %d calls' % len(mats))))
+                        expect.append((backend, y if isinstance(y, str) else mats[s_]))
     finally:
         scipy.linalg.expm, torch.linalg.matrix_exp = o_np, o_t
-    out = common.run_model(ops)
+    if skipped[0]:
+        for _ in range(skipped[0]):
+            ctx.count('sogen-capture-unavailable')
+        ctx.note(f'sogen tie: for {skipped[0]} calls the generator did not reach scipy.linalg.expm / torch.linalg.matrix_exp in a recognisable form; '
+                 'the placement is then covered by the soexp / socay / stso ties and the theorems placement_so_* only')
+    out = common.run_model(ops) if ops else []
     for op, (backend, e), line in zip(ops, expect, out):
         ctx.count('sogen-' + backend)
         if isinstance(e, str) or line == 'bad-op':
